@@ -85,3 +85,31 @@ def derivable(types, start=START):
                     if d2 < len(r2) and r2[d2] == lhs:
                         add(k, (p2, d2 + 1, o2))
     return any(_PRODS[p][0] == start and dot == len(_PRODS[p][1]) and origin == 0 for (p, dot, origin) in chart[n])
+
+
+def ref_tokens_pos(text):
+    """(type, text, start, end, depth_before, depth_after) of the tokens the grammar sees, or None on a lexical error"""
+    out, pos, depth = [], 0, 0
+    while pos < len(text):
+        if text[pos] in _LX["ignore"]:
+            pos += 1
+            continue
+        m = _RX.match(text, pos)
+        if m is None or m.end() == pos:
+            return None
+        typ = _LX["groups"][m.lastindex]
+        val = m.group(0)
+        start, pos = pos, m.end()
+        if typ == 'COMMENT':
+            continue
+        if typ == 'NAME':
+            typ = _LX["reserved"].get(val, 'NAME')
+        if typ == 'NEWLINE' and val != ';' and depth > 0:
+            continue
+        d0 = depth
+        if typ in ('LPAREN', 'LBRACKET', 'LBRACE'):
+            depth += 1
+        elif typ in ('RPAREN', 'RBRACKET', 'RBRACE'):
+            depth -= 1
+        out.append((typ, val, start, pos, d0, depth))
+    return out
